@@ -34,9 +34,11 @@ PROP = dict(
     traced="every case runs the String, BufReader and vrp-cli get_formats entry points of the real readers / writers on rendered "
            "text and requires identical results; stream bind runs the real goal.evaluate (route + activity level) and "
            "eval_job_insertion_in_route on the parsed problem",
-    out_of_model="character-level tokenisation (split_whitespace, parse::<i32>, parse::<f64>+round, split(':'), trim) and f64 sqrt in "
-                 "unrounded mode (observed as floor + is-integral) are covered by the correspondence only; goal/objective "
-                 "composition, job neighbourhood index and clusters, the random choice among identical vehicles",
+    out_of_model="character-level tokenisation (split_whitespace, parse::<i32>, parse::<f64>+round, split(':'), trim) is covered by the "
+                 "correspondence only; f64 sqrt: the theorems speak about floor / integrality / nearest integer, the correspondence "
+                 "additionally compares every matrix entry bit-exactly with an integer-arithmetic model of the correctly rounded "
+                 "double (sqrtBits, executed but not reasoned about); objective composition, job neighbourhood index and clusters, "
+                 "the random choice among identical vehicles are not modelled",
     assumptions=["all numbers are i32 (the readers unwrap parse::<i32>), ids and service times non-negative, at least one vehicle; "
                  "capacity theorems for Solomon/TSPLIB: demands non-negative",
                  "files whose numeric positions hold non-numeric tokens, a fleet size of 0 or a Li&Lim pickup naming a missing "
@@ -57,7 +59,7 @@ META = dict(
          "capacity allow it (windows_and_capacity_bind_as_file); a complete solution written as text and read back as initial solution "
          "gives the same routes and nothing unassigned (init_text_roundtrip). Tie: generated files (duplicate coordinates, zero demands, "
          "shuffled / sparse ids, whitespace, CRLF, 28.00000-style numbers, varying headers) rendered to text and read by the real "
-         "read_solomon/read_lilim/read_tsplib through String, BufReader and vrp-cli get_formats; index-free dump compared with the model, "
+         "read_solomon/read_lilim/read_tsplib through String, BufReader and vrp-cli get_formats; index-free dump (matrix bit-exact) compared with the model, "
          "the specification evaluated on the implementation's own dump; malformed files compared on the error kind; real text writer + "
          "real initial-solution reader on complete, partial and decorated solution texts; the real constraint evaluation "
          "(goal.evaluate, eval_job_insertion_in_route) on boundary cases of capacity, customer window and depot closing time.",
